@@ -178,3 +178,17 @@ def run(ctx):
             if is_call(term, "Responder::is_empty"):
                 early.append(bl.idx)
     ctx.check("send-loop", "early-return-only-when-empty", len(early) == 1, "the only early return is `if self.is_empty()`", "unexpected early returns", ctx.loc(sr))
+
+    # ------------------------------------------------------------------ "proving its own inclusion": what the server hashes as the leaf of a request and how
+    # INDX / PATH are picked per queued element are C02's leaf-definition and response-assembly rules; they are obligations of C09 too (a leaf taken over
+    # a clamped slice of the datagram answers the right client with a proof of something else).
+    import importlib
+    from framework import Ctx
+    c2 = importlib.import_module("rules.C02")
+    sub2 = Ctx("C02", P, ctx.repo, "quick", ctx.feature)
+    c2.run(sub2)
+    mine2 = [i for i in sub2.instances if i["rule"] in ("leaf-definition", "response-assembly")]
+    bad2 = [i for i in mine2 if not i["ok"]]
+    ctx.check("own-inclusion", "leaf-and-proof-are-this-requests(C02)", not bad2, "leaf definition and INDX/PATH assembly hold (C02: %d instances)" % len(mine2),
+              "a response does not prove the inclusion of the request it answers: " + (bad2[0]["detail"] if bad2 else ""), bad2[0].get("loc") if bad2 else None)
+    ctx.floor("own-inclusion", len(mine2), 8, "C02 leaf-definition / response-assembly instances")
